@@ -45,7 +45,9 @@ NOT_EXECUTED = ['JPEG 2000 (no openjpeg codec installed): only the size/bit-dept
                 'workers: ParametricMap / SCImage constructors of this tree have no workers parameter '
                 '(cases run in a fork pool of worker processes)',
                 'TILED_FULL slide sources with implicit plane positions (positions computed by the library)']
-RULE = ('pm_store: arrays 2-D/3-D/4-D of uint8/uint16/float32/float64 words (floats: random bit patterns + '
+RULE = ('every array input in several memory layouts (C, Fortran, transposed views, strided, negative strides, '
+        'read-only, big-endian 2-byte integers); every read accessor on a fresh object and after other '
+        'accessors (pixel_array cache), eager and lazy; pm_store: arrays 2-D/3-D/4-D of uint8/uint16/float32/float64 words (floats: random bit patterns + '
         'NaN payloads, +-inf, -0.0, max, subnormal), sizes with every residue mod 2 incl. odd byte counts, '
         'sources series / multi-frame (a parametric map) / slide, explicit plane positions with duplicates and '
         'permutations, native + RLE + JPEG-LS; pm_refuse: every constructor guard violated once; '
@@ -219,7 +221,8 @@ def _pm_case(rng, tier, dtype=None, ts=None, ndim=None, M=None, src_type=None, s
     else:
         maps = {'shape': 'flat', 'items': chan_maps(0)}
     return {'kind': 'pm_store', 'dtype': dtype, 'shape': shape, 'arr': _nest(words, shape), 'ts': ts,
-            'ww': rng.choice([1.0, 2.0, 256.0, 0.5]), 'src': src, 'pp': pp, 'maps': maps, 'bad': None}
+            'ww': rng.choice([1.0, 2.0, 256.0, 0.5]), 'src': src, 'pp': pp, 'maps': maps, 'bad': None,
+            'layout': rng.choice(['C', 'C', 'F', 'T', 'Tlast', 'strided', 'neg', 'readonly', 'byteswap'])}
 
 
 def _pm_refuse_case(rng, tier, bad):
@@ -285,7 +288,7 @@ def _pm_refuse_case(rng, tier, bad):
         if c['src']['type'] == 'series':
             c['src']['n'] = k
     elif bad == 'pp_mismatch':
-        n = len(c['src']['pos'])
+        n = 1 if len(c['shape']) == 2 else c['shape'][0]      # number of planes
         c['pp'] = _positions(rng, n + rng.choice([1, 2]) if n == 1 or rng.random() < 0.5 else n - 1, 'perm')
     elif bad == 'dtype':
         c['dtype'] = rng.choice(['int8', 'int16', 'int32', 'int64', 'uint32', 'uint64', 'float16', 'bool',
@@ -303,6 +306,20 @@ def _pm_refuse_case(rng, tier, bad):
 PM_BAD = ['no_src', 'mixed_series', 'two_multiframe', 'ts_float', 'ts_unsupported', 'ww', 'ndim1', 'ndim5',
           'flat_empty', 'nested_for_3d', 'flat_for_4d', 'nested_empty', 'nested_inner_empty', 'M_mismatch',
           'planes_mismatch', 'pp_mismatch', 'dtype', 'j2k_small']
+
+
+HISTORY_OPS = ['pixel_array', 'stored_frame', 'stored_frame_last_idx', 'stored_frames', 'stored_frames_idx',
+               'get_frame', 'get_frame_rw', 'get_frames', 'get_frames_rw', 'bad_number']
+
+
+def _history(rng):
+    """accessors called on the same image object before the observed call"""
+    r = rng.random()
+    if r < 0.3:
+        return []
+    if r < 0.55:
+        return ['pixel_array'] + rng.sample(HISTORY_OPS, rng.randint(0, 2))
+    return rng.sample(HISTORY_OPS, rng.randint(1, 3))
 
 
 def _frame_requests(rng, nf):
@@ -342,6 +359,8 @@ def _read_case(rng, tier, rw):
             label = f'c{j}m{t}'
             lo = rng.choice([0, 0, 1, 3])
             up = rng.choice([hi, hi, hi - 2, hi + 5])
+            if rng.random() < 0.06:
+                up = lo          # one-entry LUT / single mapped value
             if rng.random() < 0.45:
                 return _lut(rng, label, lo, up - lo + 1)
             fr = rng.random() < 0.4
@@ -355,6 +374,7 @@ def _read_case(rng, tier, rw):
         c['sel'] = rng.choice([0, 0, 0, 1, -1, -2, nmaps, f'c{rng.randrange(nch)}m{rng.randrange(nmaps)}',
                                'nope'])
     c.update(api=api, as_index=as_index, frames=fs)
+    c['history'] = _history(rng)
     return c
 
 
@@ -426,7 +446,8 @@ def _sc_good(rng, tier):
         pi = 'RGB' if var == 'rgb' else 'YBR_FULL'
         words = _words(rng, 'uint8', R * C * 3, smooth=big)
     return {'kind': 'sc', 'dtype': dtype, 'ba': ba, 'shape': shape, 'arr': _nest(words, shape), 'pi': pi,
-            'ts': ts, 'via': rng.choice(['ctor', 'from_ref'])}
+            'ts': ts, 'via': rng.choice(['ctor', 'from_ref']),
+            'layout': rng.choice(['C', 'C', 'F', 'T', 'Tlast', 'strided', 'neg', 'readonly', 'byteswap'])}
 
 
 def _sc_bad(rng, tier):
@@ -496,6 +517,27 @@ def gen_cases(rng, tier):
         cases.append(_read_case(rng, tier, False))
     for _ in range(90 * k):
         cases.append(_read_case(rng, tier, True))
+    for op in HISTORY_OPS:
+        for lazy in (False, True):
+            for rw in (False, True):
+                c = _read_case(rng, tier, rw)
+                while _dims(c)[0] * _dims(c)[3] < 2 or c['api'] == 'pixel_array':
+                    c = _read_case(rng, tier, rw)
+                c['lazy'] = lazy
+                c['history'] = [op] if rng.random() < 0.6 else [op, 'pixel_array']
+                cases.append(c)
+    for api in ('single', 'batch', 'all'):
+        for ai in (False, True):
+            for lazy in (False, True):
+                for rw in (False, True):
+                    c = _read_case(rng, tier, rw)
+                    while _dims(c)[0] * _dims(c)[3] < 2:
+                        c = _read_case(rng, tier, rw)
+                    nf = _dims(c)[0] * _dims(c)[3]
+                    lo = 0 if ai else 1
+                    c.update(api=api, as_index=ai, lazy=lazy, history=['pixel_array'],
+                             frames=None if api == 'all' else [lo + nf - 1, lo])
+                    cases.append(c)
     for _ in range(6 * k):
         cases.append(_float_read_case(rng, tier))
     for _ in range(15 * k):
@@ -506,6 +548,27 @@ def gen_cases(rng, tier):
         cases.append(_sc_good(rng, tier))
     for _ in range(120 * k):
         cases.append(_sc_bad(rng, tier))
+    # memory layouts: every layout for every kind of array input, every run
+    for lay in LAYOUTS:
+        for dt, nd in (('float32', 3), ('float64', 4), ('uint16', 4), ('uint8', 3), ('uint16', 2)):
+            c = _pm_case(rng, tier, dtype=dt, ndim=nd, ts=rng.choice(['Implicit', 'Explicit']),
+                         src_type='series')
+            while min(_rows_cols(c)) < 2:
+                c = _pm_case(rng, tier, dtype=dt, ndim=nd, ts='Explicit', src_type='series')
+            c['layout'] = lay
+            cases.append(c)
+        for dt in ('uint8', 'uint16'):
+            c = _pm_case(rng, tier, dtype=dt, ndim=rng.choice([3, 4]), ts=rng.choice(['RLE', 'JLS']),
+                         src_type='series')
+            c['layout'] = lay
+            cases.append(c)
+        for _ in range(5):
+            c = _sc_good(rng, tier)
+            c['layout'] = lay
+            cases.append(c)
+        for c in (_read_case(rng, tier, False), _read_case(rng, tier, True)):
+            c['layout'] = lay
+            cases.append(c)
     # boundaries: every residue of rows*cols mod 8 for bit-packed frames; 12-bit maximum 4095 / 4096
     for n in range(1, 18):
         shape = [1, n] if rng.random() < 0.5 else [n, 1]
@@ -524,10 +587,12 @@ def gen_cases(rng, tier):
              'pi': 'MONOCHROME2', 'ts': rng.choice(['Implicit', 'Explicit']), 'via': 'ctor'}
         c['kind'] = 'sc' if _sc_supported(c) else 'sc_refuse'
         cases.append(c)
-    fixed = []
-    for c in cases:            # cases that only the model/harness cannot express are re-drawn, not dropped
-        fixed.append(c)
-    return fixed
+    for c in cases:
+        # big-endian 2-byte integers are refused by the constructor: nothing to read back
+        if (c['kind'] in ('pm_read', 'pm_read_rw', 'pm_volume') and c.get('layout') == 'byteswap'
+                and c['dtype'] == 'uint16'):
+            c['layout'] = 'neg'
+    return cases
 
 
 # --------------------------------------------------------------------------
@@ -544,6 +609,50 @@ def _np_array(dtype, arr, shape):
     if dtype in ('float16', 'complex64'):
         return np.array(flat, dtype=np.float64).astype(NP[dtype]).reshape(shape)
     return np.array(flat, dtype=NP[dtype]).reshape(shape)
+
+
+LAYOUTS = ['C', 'F', 'T', 'Tlast', 'strided', 'neg', 'readonly', 'byteswap']
+
+
+def _relayout(a, layout):
+    """Same shape, dtype and element values as `a` (bit-wise) in another memory layout:
+    Fortran order, transposed views, strided and negative-stride views, read-only,
+    non-native byte order."""
+    import numpy as np
+    if layout in (None, 'C') or a.ndim == 0:
+        return a
+    if layout == 'F':
+        b = np.asfortranarray(a)
+    elif layout in ('T', 'Tlast'):
+        perm = list(range(a.ndim))[::-1] if layout == 'T' else list(range(a.ndim))
+        if layout == 'Tlast' and a.ndim >= 2:
+            # swap the two plane axes (rows/columns): e.g. vol.transpose(0, 2, 1) as input
+            r = a.ndim - 2 if a.ndim in (2, 3) else 1
+            perm[r], perm[r + 1] = perm[r + 1], perm[r]
+        inv = [perm.index(i) for i in range(a.ndim)]
+        b = np.ascontiguousarray(a.transpose(perm)).transpose(inv)
+    elif layout == 'strided':
+        big = np.zeros(tuple(2 * n + 1 for n in a.shape), dtype=a.dtype)
+        sl = tuple(slice(1, 2 * n + 1, 2) for n in a.shape)
+        big[sl] = a
+        b = big[sl]
+    elif layout == 'neg':
+        rev = tuple(slice(None, None, -1) for _ in a.shape)
+        b = np.ascontiguousarray(a[rev])[rev]
+    elif layout == 'readonly':
+        b = a.copy()
+        b.setflags(write=False)
+    elif layout == 'byteswap':
+        if a.dtype.itemsize == 1:
+            b = np.asfortranarray(a)
+        else:
+            b = a.astype(a.dtype.newbyteorder('>'))
+    else:
+        raise ValueError(layout)
+    assert b.shape == a.shape
+    na = b.astype(b.dtype.newbyteorder('=')) if layout == 'byteswap' else b
+    assert _to_words(na) == _to_words(a), layout
+    return b
 
 
 def _to_words(a):
@@ -662,7 +771,7 @@ def _plane_positions(c):
 
 
 def _pm_ctor(c):
-    arr = _np_array(c['dtype'], c['arr'], c['shape'])
+    arr = _relayout(_np_array(c['dtype'], c['arr'], c['shape']), c.get('layout'))
     kw = {}
     pp = _plane_positions(c)
     if pp is not None:
@@ -729,6 +838,38 @@ def _image(pm, lazy):
     return hd.imread(buf.getvalue(), lazy_frame_retrieval=lazy)
 
 
+def _replay_history(im, nf, ops):
+    """earlier accesses on the same object; their results (and errors) are irrelevant here"""
+    for op in ops:
+        try:
+            if op == 'pixel_array':
+                im.pixel_array
+            elif op == 'stored_frame':
+                im.get_stored_frame(1)
+            elif op == 'stored_frame_last_idx':
+                im.get_stored_frame(nf - 1, as_index=True)
+            elif op == 'stored_frames':
+                im.get_stored_frames()
+            elif op == 'stored_frames_idx':
+                im.get_stored_frames([nf - 1, 0], as_indices=True)
+            elif op == 'get_frame':
+                im.get_frame(nf, apply_real_world_transform=False)
+            elif op == 'get_frame_rw':
+                im.get_frame(1, apply_real_world_transform=True)
+            elif op == 'get_frames':
+                im.get_frames(apply_real_world_transform=False)
+            elif op == 'get_frames_rw':
+                im.get_frames([nf], apply_real_world_transform=True)
+            elif op == 'bad_number':
+                im.get_stored_frame(nf + 1)
+            else:
+                raise AssertionError(op)
+        except AssertionError:
+            raise
+        except Exception:
+            pass
+
+
 def _fr(x):
     return [F(float(v)) for v in x.reshape(-1).tolist()]
 
@@ -740,7 +881,7 @@ def _sel(c):
 def _sc_ctor(c):
     import highdicom as hd
     import synth
-    arr = _np_array(c['dtype'], c['arr'], c['shape'])
+    arr = _relayout(_np_array(c['dtype'], c['arr'], c['shape']), c.get('layout'))
     pi = 'NOT_A_PI' if c['pi'] == 'BOGUS' else c['pi']
     if c.get('via') == 'from_ref':
         return hd.sc.SCImage.from_ref_dataset(
@@ -777,6 +918,7 @@ def _run_impl(c):
         pm = _pm_ctor(c)
         im = _image(pm, c['lazy'])
         nf = int(pm.NumberOfFrames)
+        _replay_history(im, nf, c.get('history') or [])
         if k == 'pm_volume':
             def vol():
                 kw = (dict(apply_real_world_transform=True) if c['rw'] else
@@ -932,8 +1074,14 @@ def _sel_term(s):
     return f'(SLabel "{s}"%string)' if isinstance(s, str) else f'(SIdx {zlit(s)})'
 
 
+def _byteswapped_int(c):
+    return c.get('layout') == 'byteswap' and c.get('dtype') == 'uint16'
+
+
 def coq_term(c):
     k = c['kind']
+    if _byteswapped_int(c):
+        return None      # the library may refuse a non-native byte order; oracle-only
     if k in ('pm_store', 'pm_refuse'):
         arr = _zl4(c)
         return f'(run_pm_store {_pmcfg(c)} {arr} {_cols_term(c)})'
@@ -1004,6 +1152,8 @@ def _ref_mapping(m, frame):
 def oracle(c, out):
     import numpy as np
     k = c['kind']
+    if _byteswapped_int(c) and isinstance(out, Err) and out.kind in ('ValueError', 'TypeError'):
+        return None      # refusing a non-native byte order is fine; storing it wrongly is not
     if k == 'pm_refuse':
         return None if isinstance(out, Err) else f'invalid input accepted ({c["bad"]})'
     if k == 'pm_store':
